@@ -41,6 +41,7 @@ type Session struct {
 	Variant      string        `json:"variant,omitempty"`   // which worker binary runs this session ("" = as shipped, "small" = capacity knobs shrunk)
 	Words        []string      `json:"words,omitempty"`     // extra dictionary words (literals new relative to the baseline tree)
 	SimProcs     int           `json:"sim_procs,omitempty"` // value runtime.GOMAXPROCS(0)/NumCPU() report to the library (VERIF_SIM_PROCS)
+	SimEpoch     int64         `json:"sim_epoch,omitempty"` // simulated wall-clock ns at step 0 of the process (VERIF_SIM_EPOCH)
 }
 
 type ECall struct {
